@@ -31,6 +31,7 @@ type profile struct {
 	fair       bool
 	invPaths   []string
 	fixedPrio  bool
+	routers    func(rt *rapid.T) []queueSpec
 }
 
 func drawConfig(rt *rapid.T, p *profile) worldConfig {
@@ -40,6 +41,9 @@ func drawConfig(rt *rapid.T, p *profile) worldConfig {
 		RetryCount: rapid.IntRange(0, 3).Draw(rt, "retryCount"),
 		NActions:   rapid.IntRange(p.actions[0], p.actions[1]).Draw(rt, "nActions"),
 		NWorkers:   rapid.IntRange(p.workers[0], p.workers[1]).Draw(rt, "nWorkers"),
+	}
+	if p.routers != nil {
+		cfg.Routers = p.routers(rt)
 	}
 	return cfg
 }
